@@ -136,10 +136,288 @@ pub fn base_profile(prop: &'static str) -> Profile {
     }
 }
 
+const W_TREE: &[(K, u64)] = &[
+    (K::Root, 6),
+    (K::Child, 12),
+    (K::ChildLocal, 10),
+    (K::Finish, 14),
+    (K::SetLocalParent, 10),
+    (K::LocalEnter, 14),
+    (K::Pop, 22),
+    (K::LocalAddEvent, 2),
+    (K::StartCollector, 2),
+    (K::Push, 3),
+    (K::Flush, 2),
+    (K::Cycle, 6),
+    (K::CtxSpan, 2),
+    (K::Exit, 1),
+    (K::Join, 1),
+];
+
+const W_CANCELABLE: &[(K, u64)] = &[
+    (K::Root, 8),
+    (K::Child, 12),
+    (K::ChildLocal, 4),
+    (K::Finish, 16),
+    (K::SetLocalParent, 6),
+    (K::LocalEnter, 8),
+    (K::Pop, 14),
+    (K::AddProps, 1),
+    (K::AddEvent, 1),
+    (K::StartCollector, 1),
+    (K::Push, 2),
+    (K::Flush, 1),
+    (K::Cycle, 2),
+    (K::Sleep, 1),
+    (K::Exit, 2),
+    (K::Join, 3),
+];
+
+const W_CANCEL: &[(K, u64)] = &[
+    (K::Root, 10),
+    (K::Child, 10),
+    (K::ChildLocal, 3),
+    (K::Finish, 14),
+    (K::Cancel, 7),
+    (K::SetLocalParent, 5),
+    (K::LocalEnter, 6),
+    (K::Pop, 11),
+    (K::AddProps, 3),
+    (K::AddEvent, 3),
+    (K::LocalAddEvent, 2),
+    (K::LocalAddProps, 2),
+    (K::StartCollector, 1),
+    (K::Push, 2),
+    (K::Flush, 1),
+    (K::Cycle, 3),
+    (K::Exit, 2),
+    (K::Join, 2),
+    (K::Noop, 1),
+];
+
+const W_SAMPLING: &[(K, u64)] = &[
+    (K::Root, 10),
+    (K::Child, 12),
+    (K::ChildLocal, 6),
+    (K::Finish, 14),
+    (K::SetLocalParent, 8),
+    (K::LocalEnter, 8),
+    (K::Pop, 16),
+    (K::AddProps, 2),
+    (K::AddEvent, 2),
+    (K::LocalAddEvent, 3),
+    (K::LocalAddProps, 3),
+    (K::StartCollector, 2),
+    (K::Push, 3),
+    (K::CtxSpan, 5),
+    (K::CtxCurrent, 5),
+    (K::Flush, 1),
+    (K::Cycle, 3),
+    (K::Exit, 1),
+    (K::Join, 1),
+];
+
+const W_ATTACH: &[(K, u64)] = &[
+    (K::Root, 6),
+    (K::Child, 10),
+    (K::ChildLocal, 4),
+    (K::Finish, 10),
+    (K::SetLocalParent, 8),
+    (K::LocalEnter, 8),
+    (K::LocalWithProps, 4),
+    (K::Pop, 16),
+    (K::AddProps, 8),
+    (K::AddEvent, 8),
+    (K::LocalAddEvent, 8),
+    (K::LocalAddProps, 8),
+    (K::StartCollector, 1),
+    (K::Push, 2),
+    (K::Flush, 1),
+    (K::Cycle, 8),
+    (K::Exit, 1),
+    (K::Join, 1),
+];
+
+const W_STATE: &[(K, u64)] = &[
+    (K::Root, 14),
+    (K::Child, 8),
+    (K::ChildLocal, 2),
+    (K::Finish, 18),
+    (K::Cancel, 3),
+    (K::SetLocalParent, 4),
+    (K::LocalEnter, 4),
+    (K::Pop, 8),
+    (K::AddProps, 2),
+    (K::AddEvent, 2),
+    (K::LocalAddEvent, 1),
+    (K::Flush, 2),
+    (K::Cycle, 3),
+    (K::Stats, 2),
+    (K::Exit, 4),
+    (K::Join, 4),
+];
+
+const W_SCOPES: &[(K, u64)] = &[
+    (K::Root, 5),
+    (K::Child, 6),
+    (K::ChildLocal, 10),
+    (K::Finish, 8),
+    (K::SetLocalParent, 12),
+    (K::LocalEnter, 14),
+    (K::LocalWithProps, 2),
+    (K::StartCollector, 5),
+    (K::Pop, 26),
+    (K::LocalAddEvent, 5),
+    (K::LocalAddProps, 5),
+    (K::CtxCurrent, 16),
+    (K::Push, 2),
+    (K::Cycle, 3),
+    (K::Noop, 1),
+];
+
+const W_CTX: &[(K, u64)] = &[
+    (K::Root, 8),
+    (K::Child, 10),
+    (K::ChildLocal, 6),
+    (K::Finish, 10),
+    (K::SetLocalParent, 8),
+    (K::LocalEnter, 8),
+    (K::StartCollector, 2),
+    (K::Pop, 16),
+    (K::CtxSpan, 10),
+    (K::CtxCurrent, 10),
+    (K::RootFromCtx, 10),
+    (K::Noop, 2),
+    (K::Cycle, 2),
+    (K::Flush, 1),
+];
+
+const W_LAZY: &[(K, u64)] = &[
+    (K::Root, 8),
+    (K::Noop, 6),
+    (K::Child, 12),
+    (K::ChildLocal, 8),
+    (K::Finish, 10),
+    (K::SetLocalParent, 8),
+    (K::LocalEnter, 10),
+    (K::LocalWithProps, 5),
+    (K::StartCollector, 2),
+    (K::Pop, 18),
+    (K::AddProps, 6),
+    (K::AddEvent, 4),
+    (K::LocalAddEvent, 4),
+    (K::LocalAddProps, 6),
+    (K::Elapsed, 4),
+    (K::CtxSpan, 3),
+    (K::CtxCurrent, 3),
+    (K::Push, 2),
+    (K::Cycle, 2),
+];
+
 pub fn profile(prop: &str) -> Profile {
+    let b = base_profile("C01");
     match prop {
-        "C01" => base_profile("C01"),
-        _ => base_profile("C01"),
+        "C01" => b,
+        "C02" => Profile {
+            prop: "C02",
+            ops: (15, 70),
+            cancelable_pct: 30,
+            atomic_pct: 60,
+            weights: W_TREE,
+            multi_parent_pct: 45,
+            max_depth: 8,
+            live_tail: false,
+            stall_pct: 0,
+            ..b
+        },
+        "C03" => Profile {
+            prop: "C03",
+            cancelable_pct: 100,
+            weights: W_CANCELABLE,
+            warm_pct: 85,
+            live_tail: false,
+            callers: (1, 3),
+            ..b
+        },
+        "C04" => Profile {
+            prop: "C04",
+            cancelable_pct: 70,
+            weights: W_CANCEL,
+            ring_caps: &[(0, 5), (2, 1), (3, 1), (4, 1), (8, 1)],
+            warm_pct: 70,
+            live_tail: false,
+            props_pct: 30,
+            ..b
+        },
+        "C05" => Profile {
+            prop: "C05",
+            cancelable_pct: 20,
+            weights: W_SAMPLING,
+            unsampled_pct: 45,
+            multi_parent_pct: 45,
+            live_tail: false,
+            props_pct: 30,
+            ..b
+        },
+        "C06" => Profile {
+            prop: "C06",
+            cancelable_pct: 30,
+            weights: W_ATTACH,
+            atomic_pct: 75,
+            utf8_pct: 35,
+            props_pct: 60,
+            live_tail: false,
+            stall_pct: 0,
+            ..b
+        },
+        "C08" => Profile {
+            prop: "C08",
+            ops: (30, 110),
+            cancelable_pct: 50,
+            weights: W_STATE,
+            warm_pct: 85,
+            exit_after_finish_pct: 35,
+            live_tail: false,
+            callers: (1, 4),
+            ..b
+        },
+        "C10" => Profile {
+            prop: "C10",
+            callers: (0, 2),
+            ops: (20, 90),
+            cancelable_pct: 20,
+            weights: W_SCOPES,
+            max_depth: 12,
+            unsampled_pct: 15,
+            live_tail: false,
+            stall_pct: 0,
+            noop_pct: 5,
+            ..b
+        },
+        "C11" => Profile {
+            prop: "C11",
+            callers: (0, 2),
+            cancelable_pct: 20,
+            weights: W_CTX,
+            unsampled_pct: 20,
+            multi_parent_pct: 40,
+            live_tail: false,
+            stall_pct: 0,
+            ..b
+        },
+        "C16" => Profile {
+            prop: "C16",
+            callers: (0, 2),
+            cancelable_pct: 30,
+            weights: W_LAZY,
+            props_pct: 75,
+            late_reporter_pct: 55,
+            unsampled_pct: 15,
+            live_tail: false,
+            stall_pct: 0,
+            ..b
+        },
+        _ => b,
     }
 }
 
@@ -257,6 +535,33 @@ impl<'a> Gen<'a> {
                             parents.push(c);
                         }
                     }
+                }
+                // never join two collects that share a trace id under one span (records of such a
+                // span could not be attributed to one collect)
+                let mut seen: Vec<(u128, usize)> = vec![];
+                let mut ok_parents: Vec<Slot> = vec![];
+                for p in parents {
+                    let mut ok = true;
+                    if let SlotM::Span(sp) = self.model.slot_ref(p) {
+                        for it in &sp.items {
+                            let tid = self.model.collects[it.collect].trace_id;
+                            if seen.iter().any(|(t2, c2)| *t2 == tid && *c2 != it.collect) {
+                                ok = false;
+                            }
+                        }
+                        if ok {
+                            for it in &sp.items {
+                                seen.push((self.model.collects[it.collect].trace_id, it.collect));
+                            }
+                        }
+                    }
+                    if ok {
+                        ok_parents.push(p);
+                    }
+                }
+                let parents = ok_parents;
+                if parents.is_empty() {
+                    return false;
                 }
                 let slot = self.new_slot();
                 let props = self.nprops();
